@@ -154,7 +154,8 @@ fn dom11(thorough: bool) -> Dom11 {
     let mut aligns: Vec<usize> = (0..=12).map(|k| 1usize << k).collect();
     aligns.extend([1 << 20, 1 << 29, 1 << 62]);
     Dom11 {
-        bases: vec![16, 4096, 1 << 31, (1 << 47) - 4096, (1 << 63) - 256, 1 << 63, top & !4095],
+        // the last base makes the windows end exactly at the highest 16-aligned address
+        bases: vec![16, 4096, 1 << 31, (1 << 47) - 4096, (1 << 63) - 256, 1 << 63, top & !4095, (usize::MAX - 15) - 16 * if thorough { 64 } else { 16 }],
         start_offs: if thorough { 256 } else { 64 },
         max_blocks: if thorough { 64 } else { 16 },
         sizes,
@@ -215,7 +216,11 @@ fn c11(thorough: bool, threads: usize) -> (J, Vec<J>) {
                     }
                     // the dummy ranges: start = end + 16, both 16-aligned
                     windows.push((base + 32, base + 16));
-                    windows.push((base + 16 * d.max_blocks + 16, base + 16 * d.max_blocks));
+                    match (base + 16 * d.max_blocks).checked_add(16) {
+                        Some(s) => windows.push((s, base + 16 * d.max_blocks)),
+                        // at the very top of the address space the dummy range sits one block lower
+                        None => windows.push((base + 16 * d.max_blocks, base + 16 * d.max_blocks - 16)),
+                    }
                     for &(s, e) in &windows {
                         for &align in &d.aligns {
                             for &size in &d.sizes {
